@@ -146,7 +146,11 @@ def trace_findings(result: dict, rec: dict) -> list[tuple[set[str], str, dict]]:
         return out
     v, det = e["v"], e["detail"]
     if not v["outcome"]:
-        out.append(({"C01", "C14"}, "end:outcome", det["outcome"][0] if det["outcome"] else {}))
+        d0 = det["outcome"][0] if det["outcome"] else {}
+        own = {"C01", "C14", "C02"}
+        if d0.get("spec_accepts") and not d0.get("impl_ok"):
+            own |= {"C03"}          # a well-formed document did not yield an AST
+        out.append((own, "end:outcome", d0))
     if not v["delivered"]:
         out.append(({"C18"}, "end:delivered", {}))
     if not v["errors"]:
